@@ -100,6 +100,11 @@ def gen_scenario(rng, frontend):
     for it in ints:
         if (it['placeholder'] or it.get('signed_np')) and rng.random() < 0.8:
             events.append({'t': it['te'] + rng.choice([1, 5, it['L'] - 1]), 'kind': 'dataf', 'i': it['id']})
+    if rng.random() < 0.15:
+        # a transient transport fault: send() raises for ONE further Interest (never transmitted, so the network never answers it);
+        # its name is one of the names the other Interests use
+        events.append({'t': rng.choice(grid), 'kind': 'express-send-fault', 'name': rng.choice(INT_NAMES), 'cbp': rng.random() < 0.5,
+                       'exc': rng.choice(['OSError', 'RuntimeError', 'AttributeError'])})
     events.sort(key=lambda e: e['t'])       # stable: express events of equal time keep their order
     # nothing after a shutdown; a Nack only for an Interest already expressed
     out = []
@@ -306,6 +311,7 @@ class Run:
         self.nested = []       # (id, virtual ms of the call, task | exception) of Interests expressed from inside validators
         self.nested_obs = []
         self.shutdown_at = None
+        self.send_faults = 0
 
 
 def classify_exc(e):
@@ -481,6 +487,18 @@ def execute(sc):
                     R.express_errors[it['id']] = ex
                     continue
                 tasks[it['id']] = asyncio.ensure_future(waiter(it['id'], coro, it['te'] + it['aw'] if it.get('aw') else None))
+            elif k == 'express-send-fault':
+                face.fail_next = {'OSError': OSError(105, 'No buffer space available'), 'RuntimeError': RuntimeError('Unable to send packet before connection'),
+                                  'AttributeError': AttributeError("'NoneType' object has no attribute 'write'")}[e['exc']]
+                fit = {'id': 700, 'name': e['name'], 'cbp': e['cbp'], 'L': 40, 'lat': 0, 'verdict': 'PASS' if fe == 'v2' else True, 'digest': None}
+                R.send_faults += 1
+                try:
+                    c_ = do_express(fit)
+                    # (not raising is allowed too: the Interest is then pending like any other and nobody answers it)
+                    tasks[700 + R.send_faults] = asyncio.ensure_future(waiter(700 + R.send_faults, c_))
+                except Exception:   # noqa
+                    pass
+                face.fail_next = None
             elif k == 'data':
                 try:
                     dw = R.data_wires[e['d']]
@@ -526,6 +544,9 @@ def execute(sc):
             max(it['lat'] for it in sc['ints']) + 50
         await S.sleep_until_ms(horizon)
         R.open = [i for i, t in tasks.items() if not t.done()]
+        # every deadline has passed and every validator has returned: nothing may be pending any more (before the probe packets
+        # of the next phase get a chance to sweep up what was left behind)
+        R.stale_at_horizon = sum(len(node.pending_list) for node in pit().values())
         for nid_, t0_, tk_ in R.nested:
             if isinstance(tk_, BaseException):
                 R.nested_obs.append((nid_, t0_, ('express-raised', tk_, t0_)))
@@ -662,6 +683,8 @@ def judge(ctx, sc, R, S):
                        dict(w, interest=it, observed=(gk, str(gd), gt)))
     if getattr(R, 'open', None):
         pass   # reported through outcome 'open'
+    if R.send_faults:
+        ctx.event('express-with-a-transport-fault-in-send')
     for nid_, t0_, (nk, nd, nt) in R.nested_obs:
         ctx.event('interest-expressed-from-inside-a-validator')
         sd = R.shutdown_at
@@ -684,6 +707,10 @@ def judge(ctx, sc, R, S):
         ctx.report(f'other-application-broken:{fe}', f'after the history an Interest pending in another application object of the process could not be satisfied: {oa!r}', w)
     else:
         ctx.event('other-application-unaffected')
+    if getattr(R, 'stale_at_horizon', 0):
+        ctx.report(f'pit-not-empty-after-all-deadlines:{fe}' + (':send-fault' if R.send_faults else ''),
+                   f'{R.stale_at_horizon} entries are still pending after every deadline has passed and every validator has returned'
+                   + (' (an express call had failed in send())' if R.send_faults else ''), w)
     if R.stale:
         ctx.report(f'pit-not-empty-at-quiescence:{fe}', f'{R.stale} pending entries (in {R.pit_left} table nodes) remain after every Interest finished', w)
     elif R.pit_left:
@@ -811,7 +838,7 @@ def run(ctx):
                 'shutdown-mixed', 'nack-for-prefix-of-pending', 'verdicts-differ', 'implicit-digest'):
         ctx.need_class('template:' + lab)
     for k in ('outcome-data', 'outcome-timeout', 'outcome-nack', 'outcome-cancel', 'outcome-valfail', 'validator-calls', 'awaited-later-than-expressed', 'other-application-unaffected', 'signed-interest-without-parameters', 'data-with-wide-integers',
-              'interest-expressed-from-inside-a-validator'):
+              'interest-expressed-from-inside-a-validator', 'express-with-a-transport-fault-in-send'):
         ctx.need_event(k)
     ctx.assumptions = ['exact ties (packet / validator completion / deadline in the same millisecond) accept either order',
                        'Data arrived in time but validator slower than the deadline: Data/ValidationFailure at validator completion or timeout at the deadline are both accepted here (C05 decides that clause)',
